@@ -4,6 +4,7 @@ package upstream
 
 import (
 	"context"
+	"crypto/tls"
 	"net"
 	"net/netip"
 	"strconv"
@@ -55,6 +56,7 @@ type vrtListener struct {
 	ln   net.Listener
 	mu   sync.Mutex
 	hits int
+	sni  string // server name of the last ClientHello seen
 }
 
 func vrtListen() *vrtListener {
@@ -72,6 +74,13 @@ func vrtListen() *vrtListener {
 			l.mu.Lock()
 			l.hits++
 			l.mu.Unlock()
+			c.SetDeadline(time.Now().Add(time.Second))
+			tls.Server(c, &tls.Config{GetConfigForClient: func(chi *tls.ClientHelloInfo) (*tls.Config, error) {
+				l.mu.Lock()
+				l.sni = chi.ServerName
+				l.mu.Unlock()
+				return nil, vrtErrRefused
+			}}).Handshake()
 			c.Close()
 		}
 	}()
@@ -80,6 +89,7 @@ func vrtListen() *vrtListener {
 
 func (l *vrtListener) port() string { return strconv.Itoa(l.ln.Addr().(*net.TCPAddr).Port) }
 func (l *vrtListener) count() int   { l.mu.Lock(); defer l.mu.Unlock(); return l.hits }
+func (l *vrtListener) name() string { l.mu.Lock(); defer l.mu.Unlock(); return l.sni }
 
 // Two upstreams whose hosts are names, resolved through a bootstrap server: each connects to
 // the resolved address and to ITS OWN port, whatever the other upstream's host and port are
@@ -99,6 +109,10 @@ func vrtHarness_C18_bootstrap() {
 	}
 	a, b := mk(0), mk(vrtChoice(2))
 	opt := Opt{Bootstrap: "192.0.2.53", BootstrapVer: []int{0, 4}[vrtChoice(2)]}
+	if vrtChoice(2) == 1 {
+		opt.TLSConfig = &tls.Config{InsecureSkipVerify: true} // one TLS configuration shared by both upstreams
+		vrtCover("shared TLS configuration", true)
+	}
 	resolved := "192.0.2.9"
 	var la, lb *vrtListener
 	if !vrtSymbolic() {
@@ -126,24 +140,30 @@ func vrtHarness_C18_bootstrap() {
 		return
 	}
 	first := vrtChoice(2) // which upstream is used first
+	var sniSeen string
 	use := func(u Upstream) string {
 		vrtObsMu.Lock()
-		vrtDials, vrtDialAddr = 0, ""
+		vrtDials, vrtDialAddr, vrtSNI = 0, "", ""
 		vrtObsMu.Unlock()
 		ctx, cancel := context.WithTimeout(context.Background(), 1500*time.Millisecond)
 		defer cancel()
 		u.ExchangeContext(ctx, make([]byte, 14)) // fails: the connection is refused / closed after being recorded
 		vrtObsMu.Lock()
 		defer vrtObsMu.Unlock()
+		sniSeen = vrtSNI
 		return vrtDialAddr
 	}
-	var da, db string
+	var da, db, sa, sb string
 	if first == 0 {
 		da = use(ua)
+		sa = sniSeen
 		db = use(ub)
+		sb = sniSeen
 	} else {
 		db = use(ub)
+		sb = sniSeen
 		da = use(ua)
+		sa = sniSeen
 	}
 	ua.Close()
 	ub.Close()
@@ -152,9 +172,11 @@ func vrtHarness_C18_bootstrap() {
 		vrtCover("same host, different ports", vrtAnd(a.host == b.host, a.want != b.want))
 		vrtAssert("the first upstream connects to the resolved address and its own port", da == net.JoinHostPort(resolved, a.want))
 		vrtAssert("the second upstream connects to the resolved address and its own port", db == net.JoinHostPort(resolved, b.want))
+		vrtAssert("each upstream's TLS server name is its own URL host", vrtAnd(sa == a.host, sb == b.host))
 	} else {
 		time.Sleep(50 * time.Millisecond)
 		vrtAssert("the first upstream connects to the resolved address and its own port", la.count() >= 1)
 		vrtAssert("the second upstream connects to the resolved address and its own port", lb.count() >= 1)
+		vrtAssert("each upstream's TLS server name is its own URL host", vrtAnd(la.name() == a.host, lb.name() == b.host))
 	}
 }
